@@ -141,3 +141,113 @@ fn probe_deep_offsets_no_stack_overflow() {
     let mut out = Vec::new();
     let _ = f.data.read_to_end(&mut out); // an error is fine; a crash is not
 }
+
+// ---------------------------------------------------------------- C13 / C20: transfer schedules of the destination and of the source
+/// destination accepting at most `k` bytes per write, reporting Interrupted on every `intr`-th call
+struct Stingy { out: Vec<u8>, k: usize, calls: usize, intr: usize }
+impl Write for Stingy {
+    fn write(&mut self, b: &[u8]) -> std::io::Result<usize> {
+        self.calls += 1;
+        if self.intr > 0 && self.calls % self.intr == 0 {
+            return Err(std::io::Error::new(std::io::ErrorKind::Interrupted, "interrupted"));
+        }
+        let n = b.len().min(self.k);
+        self.out.extend_from_slice(&b[..n]);
+        Ok(n)
+    }
+    fn flush(&mut self) -> std::io::Result<()> { Ok(()) }
+}
+/// seekable source returning at most `k` bytes per read
+struct Trickle { c: Cursor<Vec<u8>>, k: usize }
+impl Read for Trickle {
+    fn read(&mut self, b: &mut [u8]) -> std::io::Result<usize> { let n = b.len().min(self.k); self.c.read(&mut b[..n]) }
+}
+impl Seek for Trickle {
+    fn seek(&mut self, p: SeekFrom) -> std::io::Result<u64> { self.c.seek(p) }
+}
+fn pnoise(n: usize, mut x: u32) -> Vec<u8> {
+    (0..n).map(|_| { x ^= x << 13; x ^= x >> 17; x ^= x << 5; (x >> 11) as u8 }).collect()
+}
+fn pkeys() -> (x25519_dalek::StaticSecret, x25519_dalek::PublicKey) {
+    let s = x25519_dalek::StaticSecret::from([0x42u8; 32]);
+    let p = x25519_dalek::PublicKey::from(&s);
+    (s, p)
+}
+fn pfiles() -> Vec<(String, Vec<u8>)> {
+    vec![("noise".to_string(), pnoise(300_000, 7)), ("empty".to_string(), Vec::new()), ("text".to_string(), b"abcdefgh".repeat(5000)),
+         ("tail".to_string(), pnoise(4097, 9))]
+}
+fn pwrite_to<W: InnerWriterTrait>(dest: W, layers: Layers) -> W {
+    let mut c = ArchiveWriterConfig::new();
+    c.set_layers(layers);
+    if layers.contains(Layers::ENCRYPT) { c.add_public_keys(&[pkeys().1]); }
+    let mut w = ArchiveWriter::from_config(dest, c).unwrap();
+    let files = pfiles();
+    // interleaved: open two files, alternate blocks
+    let a = w.start_file(&files[0].0).unwrap();
+    let b = w.start_file(&files[2].0).unwrap();
+    let (da, db) = (&files[0].1, &files[2].1);
+    w.append_file_content(a, 100_000, &da[..100_000]).unwrap();
+    w.append_file_content(b, 10_000, &db[..10_000]).unwrap();
+    w.append_file_content(a, 200_000, &da[100_000..]).unwrap();
+    w.append_file_content(b, 30_000, &db[10_000..]).unwrap();
+    w.end_file(a).unwrap();
+    w.end_file(b).unwrap();
+    w.add_file(&files[1].0, 0, &files[1].1[..]).unwrap();
+    w.add_file(&files[3].0, files[3].1.len() as u64, &files[3].1[..]).unwrap();
+    w.finalize().unwrap();
+    w.into_raw()
+}
+fn pread_all<R: Read + Seek>(src: R, layers: Layers) -> Vec<(String, Vec<u8>)> {
+    let mut c = ArchiveReaderConfig::new();
+    if layers.contains(Layers::ENCRYPT) { c.add_private_keys(&[pkeys().0]); }
+    let mut r = ArchiveReader::from_config(src, c).expect("archive opens");
+    let mut names: Vec<String> = r.list_files().unwrap().cloned().collect();
+    names.sort();
+    let mut out = Vec::new();
+    for n in names {
+        let mut f = r.get_file(n.clone()).unwrap().unwrap();
+        let mut v = Vec::new();
+        f.data.read_to_end(&mut v).expect("file reads");
+        out.push((n, v));
+    }
+    out
+}
+fn pexpected() -> Vec<(String, Vec<u8>)> { let mut f = pfiles(); f.sort(); f }
+
+/// C13/C20: an archive written to a destination that accepts only part of each write (and reports interruptions) contains the same files
+#[test]
+fn probe_destination_split_schedules() {
+    for layers in [Layers::EMPTY, Layers::COMPRESS, Layers::ENCRYPT, Layers::COMPRESS | Layers::ENCRYPT] {
+        for (k, intr) in [(1usize, 0usize), (3, 0), (15, 0), (16, 5), (17, 0), (4095, 3), (1 << 20, 2)] {
+            let d = pwrite_to(Stingy { out: Vec::new(), k, calls: 0, intr }, layers);
+            let got = pread_all(Cursor::new(d.out), layers);
+            assert!(got == pexpected(), "layers {layers:?}, destination accepting {k} bytes per write (Interrupted every {intr}): archive content differs");
+        }
+    }
+}
+
+/// C13: reading (random access) and repairing from a source that returns fewer bytes than asked gives the same result as from memory
+#[test]
+fn probe_source_split_schedules() {
+    for layers in [Layers::EMPTY, Layers::COMPRESS, Layers::ENCRYPT, Layers::COMPRESS | Layers::ENCRYPT] {
+        let bytes = pwrite_to(Vec::new(), layers);
+        for k in [1usize, 7, 15, 16, 17, 4095, 4097] {
+            if k == 1 && layers.contains(Layers::COMPRESS) { continue; } // minutes in a debug build; 7 covers the same code
+            let got = pread_all(Trickle { c: Cursor::new(bytes.clone()), k }, layers);
+            assert!(got == pexpected(), "layers {layers:?}, source returning {k} bytes per read: content differs");
+            // repair
+            let mut c = ArchiveReaderConfig::new();
+            if layers.contains(Layers::ENCRYPT) { c.add_private_keys(&[pkeys().0]); c.failsafe_return_data_even_unauthenticated(); }
+            let mut fs = ArchiveFailSafeReader::from_config(Trickle { c: Cursor::new(bytes.clone()), k }, c).expect("repair opens");
+            let mut oc = ArchiveWriterConfig::new();
+            oc.set_layers(Layers::EMPTY);
+            let mut ow = ArchiveWriter::from_config(Vec::new(), oc).unwrap();
+            let status = fs.convert_to_archive(&mut ow).expect("repair runs");
+            assert!(matches!(status, FailSafeReadError::EndOfOriginalArchiveData), "layers {layers:?}, {k} bytes per read: repair stopped with {status:?}");
+            let repaired = ow.into_raw();
+            let got = pread_all(Cursor::new(repaired), Layers::EMPTY);
+            assert!(got == pexpected(), "layers {layers:?}, source returning {k} bytes per read: repaired content differs");
+        }
+    }
+}
